@@ -23,6 +23,13 @@ def gen_case(rng, zs, k):
         e = float(np.nextafter(rng.choice(eb), rng.choice([0, np.inf])))
     w = [None, 0.0, float(10 ** rng.uniform(np.log10(0.5), 2))][k % 3]
     cni = bool((k // 3) % 2)
+    if w:   # make the DR term matter: sit on / near a resonance of an element that has data
+        if k % 2 == 0:
+            z = int(rng.choice([9, 10, 18, 26, 36, 54])); n = z + 1
+        el = xscorr.element(z)
+        if el.dr_e_res.size:
+            row = int(rng.integers(el.dr_e_res.size)) if k % 4 else int(np.argmin(el.dr_cs))
+            e = float(el.dr_e_res[row] + rng.normal() * w * 0.3)
     kind = k % 5
     if kind in (0, 1):
         N0 = None
@@ -81,9 +88,29 @@ def run(ctx):
         if k < 2:
             ctx.sample(dict(desc, jac_diag_first=np.diag(J)[:3], y0_first=call["y0"][:3]))
     ctx.cov["elements"] = len(zs)
+    # call-history sequences: the same (element, energy) under changing flags, in one process
+    for sq in range(6 if ctx.thorough else 3):
+        z = int(rng.choice([3, 9, 10, 18, 26])); el = xscorr.element(z)
+        e = float(el.dr_e_res[int(np.argmin(el.dr_cs))]) if el.dr_e_res.size else float(10 ** rng.uniform(1.5, 4))
+        j = float(10 ** rng.uniform(0, 3)); wv = float(10 ** rng.uniform(0, 1.5))
+        seq = [(None, True), (None, False), (wv, False), (wv, True), (None, False), (0.0, True), (wv, False)]
+        order = list(rng.permutation(len(seq)))
+        for idx in [0] + order:     # always start with the CNI / no-DR call
+            w, cni = seq[idx]
+            N0 = rng.uniform(0.1, 1, z + 1)
+            res, call = basiccorr.run_basic(element=el, j=j, e_kin=e, t_max=1e-6, dr_fwhm=w, N_initial=N0.copy(), CNI=cni)
+            J = basiccorr.jac_of(call, z + 1)
+            Jm, y0m = basiccorr.model_call(D, z, j, e, w, cni, N0)
+            ctx.evaluations += 1
+            ctx.seen(("history", z, sq, idx))
+            ok, wst, i = common.compare(J, Jm, 1e-11)
+            if ((J == 0) != (Jm == 0)).any() or not ok or not np.array_equal(y0m, call["y0"]):
+                ctx.fail("correspondence", f"after a sequence of calls with the same element and energy the Jacobian / start vector of basic_simulation(Z={z}, E={e}, dr_fwhm={w}, CNI={cni}) differs from the (stateless) model",
+                         inp={"Z": z, "j": j, "E": e, "w": w, "cni": cni, "N0": N0.tolist(), "method": None, "history": [list(map(lambda t: t if t is None else float(t), [seq[q][0]])) + [seq[q][1]] for q in [0] + order]})
+                break
 
 
-def stmt(z, j, e, w, cni, N0, method, rng, tight=True):
+def stmt(z, j, e, w, cni, N0, method, rng, tight=True, history=None):
     import ebisim
     el = xscorr.element(z)
     out = []
@@ -91,6 +118,8 @@ def stmt(z, j, e, w, cni, N0, method, rng, tight=True):
     desc = {"Z": z, "j": j, "E": e, "w": w, "cni": cni, "N0": None if N0 is None else list(map(float, N0)), "method": method}
     def add(clause, what):
         out.append({"key": {"clause": clause, "Z": z, "cni": cni, "dr": bool(w)}, "what": what, "input": desc})
+    for hw, hcni in (history or []):
+        ebisim.basic_simulation(el, j, e, 1e-6, dr_fwhm=hw, CNI=bool(hcni))
     Jind = basiccorr.independent_jac(el, j, e, w, cni)
     rate = np.abs(np.diag(Jind)).max()
     if rate <= 0:
@@ -135,15 +164,21 @@ def search(ctx):
     for f in ctx.failures:
         inp = f.get("input") or {}
         if "Z" in inp and "E" in inp:
-            cases.append((int(inp["Z"]), float(inp.get("j", 100.0)), float(inp["E"]), inp.get("w"), bool(inp.get("cni")), inp.get("N0"), inp.get("method")))
+            cases.append((int(inp["Z"]), float(inp.get("j", 100.0)), float(inp["E"]), inp.get("w"), bool(inp.get("cni")), inp.get("N0"), inp.get("method"), inp.get("history")))
     nn = 30 if (ctx.thorough or ctx.failures) else 6
     zs = [2, 6, 10, 18, 19, 26, 36, 54, 79, 92]
     for k in range(nn):
         z, j, e, w, cni, N0, method = gen_case(rng, zs, k)
         e = float(10 ** rng.uniform(1.5, 5))
-        cases.append((z, j, e, w, cni, N0, method))
+        cases.append((z, j, e, w, cni, N0, method, None))
+    # a poisoning history in front of a plain run
+    for z in (9, 18):
+        el = xscorr.element(z)
+        e = float(el.dr_e_res[int(np.argmin(el.dr_cs))])
+        cases.append((z, 100.0, e, None, False, list(np.full(z + 1, 1.0 / (z + 1))), None, [(None, True), (5.0, True)]))
+        cases.append((z, 100.0, e, 5.0, True, list(np.full(z + 1, 1.0 / (z + 1))), None, None))
     for c in cases:
-        V += stmt(*c, rng); ctx.count("search_cases")
+        V += stmt(*c[:7], rng, history=c[7]); ctx.count("search_cases")
         if len(V) > 10: break
     return V
 
@@ -151,5 +186,5 @@ def search(ctx):
 def replay(ctx, data):
     inp = data.get("violation", {}).get("input", {})
     if "Z" not in inp: return None
-    r = stmt(int(inp["Z"]), float(inp["j"]), float(inp["E"]), inp.get("w"), bool(inp.get("cni")), inp.get("N0"), inp.get("method"), np.random.default_rng(0))
+    r = stmt(int(inp["Z"]), float(inp["j"]), float(inp["E"]), inp.get("w"), bool(inp.get("cni")), inp.get("N0"), inp.get("method"), np.random.default_rng(0), history=inp.get("history"))
     return r[0] if r else None
